@@ -944,6 +944,16 @@ example : LigStepHyp exLigStepCtx ⟨1,8,2,0,0⟩ [⟨2,8,2,0,0⟩, ⟨3,8,3,0,0
 example : (match matchInput exLigStepCtx 2 (fun g i => g == [2, 3].getD i 0) [0, 0, 0, 0] with
     | .ok r => (r.ok, r.endPos, r.positions.take 3) == (true, 5, [2, 3, 4])
     | .error _ => false) = true := by decide
+/-- a failed match: "1 2 9" is not there (the third glyph is 3): `match_input` says no, and so does `matchSeq` -/
+example : (match matchInput exLigStepCtx 2 (fun g i => g == [2, 9].getD i 0) [0, 0, 0, 0] with
+    | .ok r => r.ok == false
+    | .error _ => false) = true := by decide
+example : matchSeq ((outP exLigStepBuf ++ inP exLigStepBuf).map toG)
+    (visibleFrom exLigFont 0 ((outP exLigStepBuf ++ inP exLigStepBuf).map toG) 3) ([2, 9].map fun v => fun g => g == v) (some 8)
+    = none := by decide
+example : matchSeq ((outP exLigStepBuf ++ inP exLigStepBuf).map toG)
+    (visibleFrom exLigFont 0 ((outP exLigStepBuf ++ inP exLigStepBuf).map toG) 3) ([2, 3].map fun v => fun g => g == v) (some 8)
+    = some [3, 4] := by decide
 example : (match applySubtable (recurseAt MAX_NESTING_LEVEL) true exLigStepCtx exLigSub with
     | .ok (c', ok) => (ok, (outP c'.buf ++ inP c'.buf).map (fun x => (x.gid, x.cluster)), c'.buf.outLen)
                         == (true, [(7, 0), (8, 1), (20, 2), (9, 2)], 3)
